@@ -120,6 +120,12 @@ func vfBuildXV(x vfXV) any {
 		return vfBuildMap(x.M)
 	case "imap":
 		return vfBuildIMap(x.M)
+	case "smap":
+		m := make(map[string]string, len(x.M))
+		for _, e := range x.M {
+			m[e.K] = e.V.S
+		}
+		return m
 	}
 	panic("vf: unknown extra value kind " + x.X)
 }
@@ -192,6 +198,16 @@ func vfRenderXV(v any, depth int) vfXV {
 		sort.Strings(ks)
 		for _, k := range ks {
 			r.M = append(r.M, vfKV{K: k, V: vfXV{X: "int", N: int(x[k]), M: []vfKV{}}})
+		}
+	case map[string]string:
+		r.X = "smap"
+		ks := make([]string, 0, len(x))
+		for k := range x {
+			ks = append(ks, k)
+		}
+		sort.Strings(ks)
+		for _, k := range ks {
+			r.M = append(r.M, vfKV{K: k, V: vfXV{X: "str", S: x[k], M: []vfKV{}}})
 		}
 	case map[string]any:
 		if depth >= 2 {
@@ -360,9 +376,32 @@ func vfElems(maps [][]vfKV, prefix string, kind string) []vfElem {
 			out = append(out, vfElemCat(prefix+k, xs, func(x vfMin) int { return x.N }))
 		default: // map[string]any / Extra: descend into the typed maps held under k
 			inner := [][]vfKV{}
+			typed := []vfXV{}
+			same := true
 			for _, v := range vals {
+				if v.X == "imap" || v.X == "smap" {
+					if len(typed) > 0 && typed[0].X != v.X {
+						same = false
+					}
+					typed = append(typed, v)
+				}
 				if v.X == "imap" {
 					inner = append(inner, v.M)
+				}
+			}
+			if len(typed) > 0 && same { // the typed maps themselves, concatenated as chunks of their own type
+				if typed[0].X == "imap" {
+					xs := []map[string]int64{}
+					for _, v := range typed {
+						xs = append(xs, vfBuildIMap(v.M))
+					}
+					out = append(out, vfElemCat(prefix+k, xs, func(map[string]int64) int { return 0 }))
+				} else {
+					xs := []map[string]string{}
+					for _, v := range typed {
+						xs = append(xs, vfBuildXV(v).(map[string]string))
+					}
+					out = append(out, vfElemCat(prefix+k, xs, func(map[string]string) int { return 0 }))
 				}
 			}
 			if len(inner) > 0 {
